@@ -45,10 +45,17 @@ def gen_case(rng, k):
         shipped = {"gc": rng.choice(["exch", "disp"]), "isobaric": rng.choice(["cell", "disp"]), "isotension": rng.choice(["cell", "disp"])}.get(drv, "disp")
         table.append({"kind": "shipped", "shipped": shipped, "name": "shipped", "probability": 1.0})
     r2 = random.Random(k * 2654435761 % 2 ** 31)
+    r5 = random.Random(k * 40503 + 11)
+    if r5.random() < 0.35:
+        # two bare user moves inside one shipped CompositeMove entry: a trial of that entry executes every member, whatever the others answered
+        table.append({"kind": "user_composite", "oids": [7, 8], "name": "ucomp", "probability": 1.0,
+                      "scripts": [[["ret", r5.choice(["True", "1", "x", "False", "0"])] if r5.random() < 0.6 else ["shift"] for _ in range(40)] for _ in range(2)]})
     for ent in table:
         if r2.random() < 0.25:
             ent["criteria_kind"] = r2.choice(["len0", "boolfalse"])      # explicit criteria objects that are falsy as Python objects
     reann = {"reannounce_at": r2.randint(1, 6)} if r2.random() < 0.3 else {}
+    if reann and r2.random() < 0.6:
+        reann["reannounce_new_move"] = True      # the entry is re-defined under its name with a NEW move object as well
     return reann | {"driver": drv, "natoms": n, "positions": [[rng.randint(0, 60) / 8 for _ in range(3)] for _ in range(n)], "seed": rng.randint(1, 2 ** 31),
             "max_cycles": rng.choice([1, 2, 3]), "steps": rng.randint(4, 9), "verdicts": [rng.random() < 0.6 for _ in range(80)], "table": table}
 
@@ -70,6 +77,15 @@ def run(res: C.Result):
     quick = res.tier == "quick"
     ncases = 120 if quick else 2400
     cases = [gen_case(rng, k) for k in range(ncases)]
+    # designated: an accepted change (everybody is notified), then the entry is re-defined under its name with a NEW move object, then accepted changes again
+    for k in range(6 if quick else 60):
+        drv = ["gc", "isobaric", "isotension"][k % 3]
+        act = ["add"] if drv == "gc" else ["cell", 1.01]
+        cases.append({"driver": drv, "natoms": 4, "positions": [[1.0 + i, 0.5 * i, 2.0] for i in range(4)], "seed": 1000 + k, "max_cycles": 1, "steps": 6 + k % 3,
+                      "verdicts": [True] * 40, "reannounce_at": 2 + k % 2, "reannounce_new_move": True,
+                      "table": [{"kind": "user", "oid": 0, "name": "user0", "script": [list(act) for _ in range(40)], "probability": 1.0},
+                                {"kind": "user", "oid": 1, "name": "user1", "script": [["shift"] for _ in range(40)], "probability": 0.5}]})
+    ncases = len(cases)
     outs = C.run_impl_parallel("c20.py", [{"cases": cases[i::16]} for i in range(16)], timeout=3000)
     results = [None] * ncases
     for j, o in enumerate(outs):
@@ -102,6 +118,12 @@ def run(res: C.Result):
             dist["trials"] += 1
             oid, kid = name2[t["name"]]
             kid = t.get("kid", kid)
+            oid = t.get("oid", oid)
+            trial_objs = t.get("objs", user_objs)          # the user objects in the table when this trial ran (an entry may have been re-defined with a new object)
+            for o in sorted(set(user_objs) | {e[1] for e in log[t["start"]:t["end"]] if e[0] in ("call", "atoms_changed", "cell_changed")}):
+                if o not in trial_objs and any(e[1] == o for e in log[t["start"]:t["end"]] if e[0] in ("call", "atoms_changed", "cell_changed")):
+                    res.fail("table:replaced-object-still-used", f"{c['driver']} trial {ti} ({t['name']}): user move {o} is no longer in the move table (its entry was re-defined with another "
+                             f"object) but it was still called / notified", {"input": c, "trial": ti})
             ev = [e for e in log[t["start"]:t["end"]] if e[0] in ("call", "evaluate", "atoms_changed", "cell_changed")]
             dist["history"][str(t["hist"][1])] += 1
             snaps = r["snaps"][t["snap_start"]:t["snap_end"]]
@@ -115,7 +137,7 @@ def run(res: C.Result):
                 dist["accepted_cell_changes"] += 1
             why = []
             # ---- notifications to every user object, whoever made the trial
-            for o in sorted(set(user_objs)):
+            for o in sorted(set(trial_objs)):
                 na = [e for e in ev if e[0] == "atoms_changed" and e[1] == o]
                 nc = [e for e in ev if e[0] == "cell_changed" and e[1] == o]
                 if accepted and (added or removed):
@@ -129,6 +151,13 @@ def run(res: C.Result):
                         why.append(("notify:cell", f"user move {o}: accepted trial changed the cell but it received {len(nc)} on_cell_changed notification(s)"))
                 elif nc:
                     why.append(("notify:cell", f"user move {o} was notified of a cell change although none was accepted"))
+            if t.get("members"):
+                dist["composite_user_trials"] = dist.get("composite_user_trials", 0) + 1
+                for o in t["members"]:
+                    ncall = sum(1 for e in ev if e[0] == "call" and e[1] == o)
+                    if ncall != 1:
+                        why.append(("composite:member-not-executed", f"entry {t['name']!r} is a CompositeMove of the user moves {t['members']}: member {o} was called {ncall} time(s) in this trial "
+                                    f"(calls seen: {[e[1:] for e in ev if e[0] == 'call']})"))
             if oid is not None:
                 dist["user_trials"] += 1
                 distinct.add((k, ti))
@@ -156,7 +185,7 @@ def run(res: C.Result):
                 verdict = evals[0][2] if evals else False
                 ch = "{| ch_added := " + C.natlist(added if accepted else []) + "; ch_removed := " + C.natlist(removed if accepted else []) + "; ch_cell := " + \
                      (f"Some {int(round(t['cell_after'] * 1e6))}" if accepted and cell_changed else "None") + " |}"
-                items.append(f"show (trial_trace {C.blit(c['driver'] == 'gc')} {C.natlist(user_objs)} {oid} {kid} ({RETS[retkey]}) {C.blit(verdict)} {ch})")
+                items.append(f"show (trial_trace {C.blit(c['driver'] == 'gc')} {C.natlist(trial_objs)} {oid} {kid} ({RETS[retkey]}) {C.blit(verdict)} {ch})")
                 enc = []
                 for e in ev:
                     if e[0] == "call":
